@@ -194,6 +194,8 @@ func TestVerifCsvDriver(t *testing.T) {
 				}
 			}()
 			fmt.Fprintln(w, "end")
+			// a panic in the importer's own goroutine ends the process: what was done so far is on disk
+			w.Flush()
 		}
 	}
 }
